@@ -152,6 +152,8 @@ components(comp),
 isinit(false),
 isinit_d(true)
 {
+  if(dim==1)
+    throw std::runtime_error("SU_vector::SU_vector(unsigned int, double*): Invalid size: dimension 1 is not supported");
   if(dim>SQUIDS_MAX_HILBERT_DIM)
     throw std::runtime_error("SU_vector::SU_vector(unsigned int, double*): Invalid size: only up to SU(" SQUIDS_MAX_HILBERT_DIM_STR ") is supported");
 };
@@ -218,6 +220,10 @@ isinit_d(false)
 };
   
 SU_vector SU_vector::make_aligned(unsigned int dim, bool zero_fill){
+  if(dim==1)
+    throw std::runtime_error("SU_vector::make_aligned(unsigned int, bool): Invalid size: dimension 1 is not supported");
+  if(dim>SQUIDS_MAX_HILBERT_DIM)
+    throw std::runtime_error("SU_vector::make_aligned(unsigned int, bool): Invalid size: only up to SU(" SQUIDS_MAX_HILBERT_DIM_STR ") is supported");
   SU_vector v;
   v.dim=dim;
   v.size=dim*dim;
